@@ -94,7 +94,8 @@ def gen_model(rnd, tier='quick'):
             break
         a, b = rnd.sample(range(n), 2)
         links.append([a, b])
-    return {'kind': 'csv', 'tasks': tasks, 'links': links, 'delimiter': rnd.choice([None, None, None, ',', '\t', '|'])}
+    return {'kind': 'csv', 'tasks': tasks, 'links': links, 'delimiter': rnd.choice([None, None, None, ',', '\t', '|']),
+            'edit_after_read': rnd.randrange(1000) if rnd.random() < 0.3 else None, 'then_empty': rnd.random() < 0.05}
 
 
 def build(model):
@@ -235,6 +236,50 @@ def judge_roundtrip(model, acc, wk):
     with open(p2, 'rb') as f2, open(p3, 'rb') as f3:
         if f2.read() != f3.read():
             acc.violation('C13/not-a-fixpoint', 'file written from the re-read WBS is not reproduced by a further read/write cycle', model)
+    # a plan that was loaded from a file is edited and saved again: the file describes the plan as it is now
+    if model.get('edit_after_read') is not None:
+        ts = list(r1.tasks)
+        k_ = model['edit_after_read']
+        edited = None
+        if len(ts) >= 2:
+            x, y = ts[k_ % len(ts)], ts[(k_ // 7 + 1) % len(ts)]
+            try:
+                if k_ % 3 == 0 and x is not y:
+                    x.parent = y if x.parent is not y else None
+                    edited = 'reparent'
+                elif k_ % 3 == 1 and len(x.predecessors):
+                    x.predecessors.remove(x.predecessors[0])
+                    edited = 'unlink'
+                elif x is not y:
+                    x.predecessors.append(y)
+                    edited = 'link'
+            except RuntimeError:
+                edited = None
+        if edited:
+            acc.ev()
+            acc.count('edits_after_read')
+            pe = wk.path('e.csv')
+            try:
+                want = describe(r1, customs)
+                write_csv(r1, pe)
+                de = first_diff(want, describe(read_csv(pe), customs))
+                if de:
+                    acc.violation(f'C13/roundtrip-{de[0]}/after-{edited}-of-a-loaded-plan', f'a loaded plan was edited ({edited}) and saved again; reading that file back differs: ' + de[1], model)
+            except Exception as e:
+                acc.violation(f'C13/roundtrip-raised-{type(e).__name__}/after-{edited}-of-a-loaded-plan', f'saving/reading a loaded and edited plan raised {type(e).__name__}: {str(e)[:100]}', model)
+    if model.get('then_empty'):
+        # an empty plan is a plan: written over an earlier export it leaves a file that reads back empty
+        acc.ev()
+        acc.count('empty_plan_roundtrips')
+        try:
+            from pjplan import WBS as _WBS
+            write_csv(_WBS(), p1)
+            got_ = [t.id for t in read_csv(p1).tasks]
+            if got_:
+                acc.violation('C13/roundtrip-ids/order/empty-plan', f'an empty WBS written over an earlier export reads back with tasks {got_[:5]}', model)
+        except Exception as e:
+            acc.violation(f'C13/roundtrip-raised-{type(e).__name__}/empty-plan', f'round trip of an empty WBS raised {type(e).__name__}: {str(e)[:100]}', model)
+        return
     # layout of the first file, parsed independently
     with open(p1, 'r', encoding='utf-8-sig', newline='') as f:     # a byte-order mark in front of the header is not excluded by C13
         rows = list(csv.reader(f, delimiter=';'))
